@@ -8,7 +8,7 @@ RULE = ("C13: programs under FailAfter / ContinueAfter bounds 1..30 and without 
 
 
 def run(tier):
-    res = run_prog_check("C13", PROPS, tier, ["c13", "c08"], n_quick=5000, n_thorough=80000, rule=RULE, focus=["bound", "bound", "bound", "sem", "mutex", "chan", "park", "atomic"], focus_n=(2400, 48000))
+    res = run_prog_check("C13", PROPS, tier, ["c13", "c08"], n_quick=5000, n_thorough=80000, rule=RULE, focus=["bound", "bound", "bound", "sem", "mutex", "chan", "park", "atomic"], focus_n=(2400, 48000), exhaustive=["sem", "mutex", "chan", "park"], exh_n=(20, 200))
     if isinstance(res, int):
         return res
     ctx, cases, mo, io = res
